@@ -35,7 +35,7 @@ SIZES = [0, 1, 2, 5]
 def _sym_shapes(op: L.Op, idx: int, rng: random.Random, thorough: bool) -> list:
     mr = op.max_rank[idx]
     if idx > 0:  # secondary inputs: a fixed small family
-        fam = [None, [], [0], [2], ["N"], [None], [2, 2], [1, None]]
+        fam = [None, [], [0], [2], ["N"], [None], [2, 2], [1, None], [2, 3], [2, 1, 3]]
         return [s for s in fam if s is None or len(s) <= mr]
     full = L.shapes_upto(mr)
     if thorough:
@@ -292,7 +292,7 @@ def corr_rt(ck: core.Check, drv) -> None:
         for i, mr in enumerate(op.max_rank):
             ss = [list(p) for r in range(mr + 1) for p in itertools.product(dims, repeat=r)]
             if i > 0:
-                ss = [s for s in ss if len(s) <= 1] + [[1, 2], [2, 1]][: max(0, mr - 1) * 2]
+                ss = [s for s in ss if len(s) <= 1] + [[1, 2], [2, 1], [2, 3], [2, 1, 3]][: max(0, mr - 1) * 2]
             elif not ck.thorough and len(op.inputs) > 1:
                 ss = [s for s in ss if len(s) <= 2] + rng.sample([s for s in ss if len(s) == 3], 16)
             shape_sets.append(ss)
@@ -390,7 +390,9 @@ def oracle_single(ck: core.Check) -> dict:
                 picked = rng.sample(hi, min(ck.pick(10, 60), len(hi)))
                 shape_sets.append(lo + always + [s for s in picked if s not in always])
             else:
-                shape_sets.append([s for s in ([], [2], ["K"], [None], [1, 2]) if len(s) <= mr])
+                # every rank 0-3 whatever the routine accepts today: the oracle runs on what the REAL
+                # constructor accepts, so a relaxed check is exercised in its formerly rejected region
+                shape_sets.append([[], [2], ["K"], [None], [1, 2], [2, 3], ["K", 2], [2, 1, 3]])
         for a in op.attr_classes():
             for elems in itertools.product(*op.in_elems):
                 for shapes in itertools.product(*shape_sets):
@@ -422,6 +424,29 @@ def oracle_single(ck: core.Check) -> dict:
                     stats["vars_checked"] += st["checked"]
                     ck.count(("single-erased", name, json.dumps(a, sort_keys=True), json.dumps(tys)) if st["checked"] else None)
                     report(ck, st["fails"], case)
+    return stats
+
+
+def oracle_function_conflicts(ck: core.Check) -> dict:
+    """Programs in which one function key gets two different bodies (rank / dtype dependent helper
+    called at two types in both orders; two helpers under one name). Expected: spox refuses to build
+    them. If a build returns, the reported types of every call are compared with the runtime."""
+    stats = {"programs": 0, "refused_at_build": 0, "built": 0, "runs": 0, "vars_checked": 0, "build_errors": []}
+    for cc in P.CONFLICT_CASES:
+        case = dict(cc, kind="function-conflict")
+        st = P.run_function_conflict(case, ck.rng, SIZES, max_inst=ck.pick(3, 6))
+        stats["programs"] += 1
+        if st.get("built"):
+            stats["built"] += 1
+        else:
+            stats["refused_at_build"] += 1
+            err = (st.get("load_error") or st.get("error") or "")[:90]
+            if err not in stats["build_errors"]:
+                stats["build_errors"].append(err)
+        stats["runs"] += st["runs"]
+        stats["vars_checked"] += st["checked"]
+        ck.count(("function-conflict", json.dumps(cc)))
+        report(ck, st["fails"], case)
     return stats
 
 
@@ -519,6 +544,7 @@ def run(ck: core.Check):
     ck.cov["oracle_single"] = _facet(ck, "single-operator oracle", oracle_single, ck)
     ck.log("single-operator oracle done")
     ck.cov["oracle_scan"] = _facet(ck, "Scan oracle", oracle_scan, ck)
+    ck.cov["oracle_function_conflicts"] = _facet(ck, "function-conflict oracle", oracle_function_conflicts, ck)
     ck.cov["oracle_programs"] = _facet(ck, "program oracle", oracle_programs, ck)
     ck.log("program oracle done")
     _facet(ck, "witness replay", P.replay_known, ck)
@@ -556,6 +582,8 @@ def replay(ck: core.Check, doc) -> bool:
         st = P.run_single(case, rng, SIZES, max_inst=8, extra_feeds=extra)
     elif case.get("kind") == "program":
         st = P.run_program(case, SIZES, max_inst=6, extra_feeds=extra)
+    elif case.get("kind") == "function-conflict":
+        st = P.run_function_conflict(case, rng, SIZES, max_inst=6, extra_feeds=extra)
     elif case.get("kind") == "scan":
         st = P.run_scan(case, rng, SIZES, max_inst=6, extra_feeds=extra)
     elif case.get("kind") == "witness":
